@@ -19,6 +19,7 @@ response is outside it (`C03_result_fields`).
 import Ldap3V.Lemmas.Result
 import Ldap3V.Lemmas.FramingWF
 import Ldap3V.Lemmas.GenPure
+import Ldap3V.Gen.ResRoles
 namespace Ldap3V
 open Spec
 
@@ -253,5 +254,61 @@ theorem C03_helpers_source (rc : Nat) :
 example : Gen.exopResult_non_error 10 = some (.ok none) ∧ Gen.exopResult_non_error 11 = some .err ∧
     Gen.compareResult_equal 6 = some (.ok (some true)) := by decide
 
+
+/-! ### tie by regeneration (translate/res_roles.py): the optional components of a result -/
+
+/-- the dispatch of the model's component loop (`resTail`) on the tag NUMBER of a component -/
+def compRoleOf (id : Nat) : Gen.CompRole :=
+  if id = 3 then .referral else if id = 7 then .saslCreds else if id = 10 then .exopName
+  else if id = 11 then .exopVal else .skipped
+
+/-- The `match comp.id { … }` of `LdapResultExt::try_from_tag` as written in src/result.rs today — which tag number
+fills the referral list, the SASL credentials, the extended response's name and value, and that everything else
+is skipped — is the dispatch of the model's `resTail`, for EVERY tag number … -/
+theorem C03_component_roles_source (id : Nat) : Gen.result_component_role id = compRoleOf id := by
+  unfold Gen.result_component_role compRoleOf
+  by_cases h3 : id = 3
+  · subst h3; rfl
+  · by_cases h7 : id = 7
+    · subst h7; rfl
+    · by_cases h10 : id = 10
+      · subst h10; rfl
+      · by_cases h11 : id = 11
+        · subst h11; rfl
+        · simp [h3, h7, h10, h11]
+
+/-- … and `resTail` acts on a component by that role alone (the class is not looked at): one step of the loop,
+role by role. -/
+theorem C03_resTail_by_role (comp : Tlv) (rest : List Tlv) (a : ResAcc) :
+    resTail (comp :: rest) a =
+      match compRoleOf comp.id with
+      | .referral => (comp.expectCons.bind refUris).bind fun us => resTail rest { a with refs := a.refs ++ us }
+      | .saslCreds => comp.expectPrim.bind fun v => resTail rest { a with sasl := some v }
+      | .exopName => (utf8Prim comp).bind fun n => resTail rest { a with exopName := some n }
+      | .exopVal => comp.expectPrim.bind fun v => resTail rest { a with exopVal := some v }
+      | .skipped => resTail rest a := by
+  unfold compRoleOf
+  by_cases h3 : comp.id = 3
+  · simp only [resTail, h3, beq_self_eq_true, if_true]
+    cases comp.expectCons with
+    | none => rfl
+    | some uris => cases h : refUris uris <;> simp [h]
+  · by_cases h7 : comp.id = 7
+    · simp only [resTail, h7, if_true]
+      cases comp.expectPrim <;> rfl
+    · by_cases h10 : comp.id = 10
+      · simp only [resTail, h10, if_true]
+        cases utf8Prim comp <;> rfl
+      · by_cases h11 : comp.id = 11
+        · simp only [resTail, h11, if_true]
+          cases comp.expectPrim <;> rfl
+        · have e3 : (comp.id == 3) = false := by simpa using h3
+          have e7 : (comp.id == 7) = false := by simpa using h7
+          have e10 : (comp.id == 10) = false := by simpa using h10
+          have e11 : (comp.id == 11) = false := by simpa using h11
+          simp [resTail, h3, h7, h10, h11, e3, e7, e10, e11]
+
+example : Gen.result_component_role 3 = .referral ∧ Gen.result_component_role 10 = .exopName ∧
+    Gen.result_component_role 4 = .skipped ∧ Gen.result_component_role 0 = .skipped := by decide
 
 end Ldap3V
